@@ -457,6 +457,93 @@ def _wrap_setop(cls, name, ctor):
     wrapper.__name__ = name
     setattr(cls, name, wrapper)
 
+
+# ------------------------------------------------------------------ term-level builders (Builder.lean `stepT`, driver op `tstep`)
+
+TERM_CTX = {"quote_char": '"', "secondary_quote_char": "'", "with_alias": True, "with_namespace": True}
+
+
+def encode_term_call(t, name, args, kw):
+    a = list(args)
+    if name == "as_":
+        al = a[0] if a else kw.get("alias")
+        if al is not None and not isinstance(al, str):
+            raise Unsupported("alias %r" % (al,))
+        return {"m": "as_", "alias": al}
+    if name == "when":
+        vals = dict(zip(["criterion", "term"], a))
+        vals.update(kw)
+        if not isinstance(vals["criterion"], T.Node):
+            raise Unsupported("when criterion %r" % type(vals["criterion"]))
+        return {"m": "when", "crit": describe.d_term(vals["criterion"]), "val": d_arg(vals["term"])}
+    if name == "else_":
+        return {"m": "else_", "val": d_arg(a[0] if a else kw.get("term"))}
+    if name == "filter":
+        if kw or not all(isinstance(x, T.Node) for x in a):
+            raise Unsupported("filter arguments")
+        return {"m": "filter", "cs": [describe.d_term(x) for x in a]}
+    if name == "over":
+        if kw:
+            raise Unsupported("over kwargs")
+        terms = [describe.d_term(p) if hasattr(p, "get_sql") else {"k": "lit", "text": str(p), "alias": None} for p in a]
+        return {"m": "over", "terms": terms}
+    if name == "orderby":
+        if set(kw) - {"order"} or not all(isinstance(x, T.Node) for x in a):
+            raise Unsupported("orderby arguments")
+        o = kw.get("order")
+        if o is not None and not isinstance(o, Order):
+            raise Unsupported("order %r" % (o,))
+        return {"m": "orderby", "terms": [describe.d_term(x) for x in a], "order": describe.d_ord(o)}
+    if name in ("rows", "range"):
+        vals = dict(zip(["bound", "and_bound"], a))
+        vals.update(kw)
+        hi = vals.get("and_bound")
+        return {"m": "frame", "kind": name.upper(), "lo": describe.d_edge(vals["bound"]), "hi": describe.d_edge(hi) if hi else None}
+    if name in ("ignore_nulls", "distinct"):
+        if a or kw:
+            raise Unsupported(name + " signature")
+        return {"m": name}
+    raise Unsupported("method %s" % name)
+
+
+def _wrap_term(cls, name):
+    orig = cls.__dict__[name]
+
+    def wrapper(self, *args, **kw):
+        if ACTIVE is None or _DEPTH[0] > 0 or len(ACTIVE) >= MAX_RECORDS or isinstance(self, (Q.QueryBuilder, Q._SetOperation)) \
+                or not isinstance(self, T.Term):
+            _DEPTH[0] += 1
+            try:
+                return orig(self, *args, **kw)
+            finally:
+                _DEPTH[0] -= 1
+        rec = _Rec()
+        rec.skip = None
+        rec.label = "%s.%s" % (type(self).__name__, name)
+        rec.result = rec.exc = rec.pre = rec.call = None
+        rec.dialect = "term"
+        try:
+            rec.call = encode_term_call(self, name, args, kw)
+            rec.pre = describe.d_term(self)
+        except Unsupported as e:
+            rec.skip = str(e)[:50]
+        except Exception as e:
+            rec.skip = "describe: %s" % type(e).__name__
+        ACTIVE.append(rec)
+        _DEPTH[0] += 1
+        try:
+            out = orig(self, *args, **kw)
+            rec.result = out
+            return out
+        except Exception as e:
+            rec.exc = type(e).__name__
+            raise
+        finally:
+            _DEPTH[0] -= 1
+    wrapper.__wrapped__ = orig
+    wrapper.__name__ = name
+    setattr(cls, name, wrapper)
+
 _INSTALLED = [False]
 
 
@@ -618,6 +705,13 @@ def install():
                 _wrap_opaque(cls, name)
     for name in JOINER_METHODS:
         _wrap_joiner(name)
+    from pypika import functions as _fn
+    for cls, names in ((T.Term, ["as_"]), (T.Case, ["when", "else_"]), (T.AggregateFunction, ["filter"]),
+                       (T.AnalyticFunction, ["over", "orderby"]), (T.WindowFrameAnalyticFunction, ["rows", "range"]),
+                       (T.IgnoreNullsAnalyticFunction, ["ignore_nulls"]), (_fn.DistinctOptionFunction, ["distinct"])):
+        for name in names:
+            if name in cls.__dict__:
+                _wrap_term(cls, name)
     for name in SETOP_CTORS:
         _wrap_setop(Q.QueryBuilder, name, True)
     for name in SETOP_METHODS:
@@ -654,6 +748,25 @@ class Recording:
             if rec.skip is not None or rec.call is None or rec.pre is None:
                 if stats is not None:
                     stats["bstep-skipped:" + (rec.skip or "?")[:30]] = stats.get("bstep-skipped:" + (rec.skip or "?")[:30], 0) + 1
+                continue
+            if rec.dialect == "term":
+                try:
+                    req = {"op": "tstep", "ctx": describe.d_ctx(TERM_CTX), "st": rec.pre, "call": rec.call}
+                    if rec.exc is not None:
+                        exp = {"exc": rec.exc}
+                    elif isinstance(rec.result, T.Term):
+                        req["post"] = describe.d_term(rec.result)
+                        exp = {"agree": True}
+                    else:
+                        continue
+                except Unsupported as e:
+                    if stats is not None:
+                        k = "bstep-skipped:" + str(e)[:30]
+                        stats[k] = stats.get(k, 0) + 1
+                    continue
+                if stats is not None:
+                    stats["bstep=term." + rec.label.split(".", 1)[1]] = stats.get("bstep=term." + rec.label.split(".", 1)[1], 0) + 1
+                out.append((req, exp, "model of %s vs the real call" % rec.label))
                 continue
             if rec.dialect == "setop":
                 try:
